@@ -190,7 +190,7 @@ theorem parSearchLoop_quit (c : Cfg) (ran : List Item) (st : St) (h : WritesOk r
 /-! ### `files` -/
 
 theorem filesLoop_ok (c : Cfg) (items : List Item) (st : St) (h : WritesOk items) :
-    (filesLoop c items st).2 = false ∧
+    (filesLoop c items st).2 = none ∧
     (filesLoop c items st).1.matched = (st.matched || items.any isFile) := by
   induction items generalizing st with
   | nil => simp [filesLoop]
@@ -338,23 +338,29 @@ theorem main_search_par (c : Cfg) (ran : List Item) (hm : c.mode = .search) (hmp
 theorem main_files_seq (c : Cfg) (ran : List Item) (hm : c.mode = .files)
     (hp : c.parallel = false) (hok : c.setupOk = true) :
     main c .ok ran =
-      if (filesLoop c ran {}).2 then
-        ⟨2, (filesLoop c ran {}).1.diags ++ [.fatal], (filesLoop c ran {}).1.out⟩
-      else ⟨exitCode (filesLoop c ran {}).1.matched c.quiet (filesLoop c ran {}).1.errored,
-            (filesLoop c ran {}).1.diags, (filesLoop c ran {}).1.out⟩ := by
+      match (filesLoop c ran {}).2 with
+      | none => ⟨exitCode (filesLoop c ran {}).1.matched c.quiet (filesLoop c ran {}).1.errored,
+                  (filesLoop c ran {}).1.diags, (filesLoop c ran {}).1.out⟩
+      | some .pipe => ⟨0, (filesLoop c ran {}).1.diags, (filesLoop c ran {}).1.out⟩
+      | some _ => ⟨2, (filesLoop c ran {}).1.diags ++ [.fatal], (filesLoop c ran {}).1.out⟩ := by
   simp only [main, run, hm, hp, files, hok]
   cases h : filesLoop c ran {} with
-  | mk st failed => cases failed <;> simp
+  | mk st failed =>
+    cases failed with
+    | none => simp
+    | some w => cases w <;> simp
 
 theorem main_files_par (c : Cfg) (ran : List Item) (hm : c.mode = .files)
     (hp : c.parallel = true) (hok : c.setupOk = true) :
     main c .ok ran =
-      if (printThread (filesParWalk c ran {}).2).2 = .err then
-        ⟨2, (filesParWalk c ran {}).1.diags ++ [.fatal],
-          (filesParWalk c ran {}).1.out ++ (printThread (filesParWalk c ran {}).2).1⟩
-      else ⟨exitCode (filesParWalk c ran {}).1.matched c.quiet (filesParWalk c ran {}).1.errored,
+      match (printThread (filesParWalk c ran {}).2).2 with
+      | .ok => ⟨exitCode (filesParWalk c ran {}).1.matched c.quiet (filesParWalk c ran {}).1.errored,
             (filesParWalk c ran {}).1.diags,
-            (filesParWalk c ran {}).1.out ++ (printThread (filesParWalk c ran {}).2).1⟩ := by
+            (filesParWalk c ran {}).1.out ++ (printThread (filesParWalk c ran {}).2).1⟩
+      | .pipe => ⟨0, (filesParWalk c ran {}).1.diags,
+            (filesParWalk c ran {}).1.out ++ (printThread (filesParWalk c ran {}).2).1⟩
+      | .err => ⟨2, (filesParWalk c ran {}).1.diags ++ [.fatal],
+          (filesParWalk c ran {}).1.out ++ (printThread (filesParWalk c ran {}).2).1⟩ := by
   simp only [main, run, hm, hp, filesParallel, hok]
   cases h : filesParWalk c ran {} with
   | mk st sent =>
@@ -540,8 +546,7 @@ theorem filesParWalk_diags (c : Cfg) (items : List Item) (st : St) :
 /-! ### Broken pipe in `--files` -/
 
 theorem filesLoop_pipe (c : Cfg) (items : List Item) (st : St) (h : filesPipe c items = true) :
-    (filesLoop c items st).2 = false ∧ (filesLoop c items st).1.matched = true ∧
-    ((filesLoop c items st).1.errored = true → st.errored = true ∨ items.any (isFault c) = true) := by
+    (filesLoop c items st).2 = some .pipe := by
   induction items generalizing st with
   | nil => simp [filesPipe] at h
   | cons x xs ih =>
@@ -549,13 +554,11 @@ theorem filesLoop_pipe (c : Cfg) (items : List Item) (st : St) (h : filesPipe c 
     | walkErr =>
       simp only [filesPipe] at h
       simp only [filesLoop]
-      obtain ⟨a, b, _⟩ := ih (errMessage c st .walk) h
-      exact ⟨a, b, fun _ => .inr (by simp [isFault])⟩
+      exact ih _ h
     | skip =>
       simp only [filesPipe] at h
       simp only [filesLoop]
-      obtain ⟨a, b, e⟩ := ih st h
-      exact ⟨a, b, fun he => (e he).imp (fun h => h) (fun h => by simp [h])⟩
+      exact ih _ h
     | file id sr wr =>
       simp only [filesPipe] at h
       simp only [filesLoop]
@@ -564,11 +567,9 @@ theorem filesLoop_pipe (c : Cfg) (items : List Item) (st : St) (h : filesPipe c 
       · rename_i hq
         rw [if_neg hq]
         cases wr with
-        | pipe => exact ⟨rfl, rfl, fun he => .inl he⟩
+        | pipe => rfl
         | err => simp at h
-        | ok =>
-          obtain ⟨a, b, e⟩ := ih { st with matched := true, out := st.out ++ [id] } h
-          exact ⟨a, b, fun he => (e he).imp (fun h => h) (fun h => by simp [h])⟩
+        | ok => exact ih _ h
 
 theorem filesParWalk_sent_matched (c : Cfg) (items : List Item) (st : St)
     (h : (filesParWalk c items st).2 ≠ []) : (filesParWalk c items st).1.matched = true := by
